@@ -79,6 +79,8 @@ def fr(v):
 
 
 def frl(vs):
+    if len(vs) == 0:
+        return '(@nil (list Z))'      # an untyped [] cannot be inferred when it is the only element shape in a shard
     return '[' + '; '.join(fr(v) for v in vs) + ']'
 
 
